@@ -107,15 +107,16 @@ def run_check(prop, tier):
         print("stage M: WsConn, %d states generated, %d distinct, %.0fs" % (m["states"], m["distinct"], m["seconds"]))
         # ---- stage G
         with open(os.path.join(sd, "WsGen.cfg"), "w") as f:
-            f.write("SPECIFICATION Spec\nCONSTANTS MaxWriters = 3\n MaxK = %d\n Delays = {0, 40, 200%s}\nCHECK_DEADLOCK FALSE\n"
-                    % (6 if q else 10, "" if q else ", 20, 100, 1000"))
+            f.write("SPECIFICATION Spec\nCONSTANTS MaxWriters = 3\n MaxK = %d\n Delays = {0, 40, 200%s}\n Long = %s\nCHECK_DEADLOCK FALSE\n"
+                    % (6 if q else 10, "" if q else ", 20, 100, 1000", "FALSE" if q or prop != "C13" else "TRUE"))
         g = vlib.tlc(sd, "WsGen", workers=1, timeout=600)
         if g["error"]:
             raise vlib.Infra("TLC error in WsGen: %s\n%s" % (g["error"], g["tail"]))
         scripts = list(vlib.tlc_lines(g["out_path"], "TEST"))
         scripts.sort(key=lambda r: json.dumps(r, sort_keys=True))
         reps = 3 if q else 12           # scheduling differs from run to run: repeat the table
-        scripts = [dict(s) for _ in range(reps) for s in scripts]
+        longs = [s for s in scripts if s["event"] in ("peerSilent", "idleLong")]
+        scripts = [dict(s) for _ in range(reps) for s in scripts if s["event"] not in ("peerSilent", "idleLong")] + [dict(s) for _ in range(2) for s in longs]
         for i, s in enumerate(scripts):
             s["id"] = i
         sp = os.path.join(sc, "scripts.ndjson")
